@@ -181,7 +181,7 @@ func TestC02(t *testing.T) {
 	explore(t, r, "C02", cs, map[string]bool{"ms": true, "kms": true, "aead": true}, ev.Pick(30, 100))
 	// the same enumeration end to end over region-suffixed key ids and over the DynamoDB plug-ins (single faults and
 	// a sample of pairs)
-	for _, v := range [][2]string{{"memory", "us-west-2"}, {"dynamodb-v1", ""}, {"dynamodb-v2", "eu-west-1"}} {
+	for _, v := range [][2]string{{"memory", "us-west-2"}, {"dynamodb-v1", ""}, {"dynamodb-v2", "eu-west-1"}, {"sql", ""}} {
 		execBackend, execSuffix = v[0], v[1]
 		explore(t, r, "C02", cells([]string{"simple", "nocache"}, []string{"enc"}), map[string]bool{"ms": true, "kms": true}, ev.Pick(4, 40))
 		r.Count("passes_over_"+v[0]+"_suffix_"+v[1], 1)
